@@ -146,9 +146,10 @@ func unflatEdit(v flat) manifest.Edit {
 }
 
 type mfDesc struct {
-	Kind    string   `json:"kind"` // reload | crash
-	Thr     int64    `json:"thr"`
-	Batches [][]flat `json:"batches"`
+	Kind     string   `json:"kind"` // reload | crash | resume
+	Thr      int64    `json:"thr"`
+	Batches  [][]flat `json:"batches"`
+	Batches2 [][]flat `json:"batches2,omitempty"`
 }
 
 func key(c *corr.Ctx) []byte {
@@ -466,9 +467,139 @@ func crashCase(c *corr.Ctx, root string, d mfDesc) (corr.Case, error) {
 	return corr.Case{Coq: term, Nontrivial: total > 0, Desc: d}, nil
 }
 
+// orphanImage: among the directory snapshots of one LogEdits call, the last one that holds a
+// second, newer manifest file while CURRENT still names the old one (a rewrite that died
+// between "new manifest written" and "CURRENT renamed").
+func orphanImage(snaps []dirSnap) dirSnap {
+	var img dirSnap
+	for _, s := range snaps {
+		var mans []string
+		for n := range s {
+			if len(n) > 9 && n[:9] == "MANIFEST-" {
+				mans = append(mans, n)
+			}
+		}
+		sort.Strings(mans)
+		if len(mans) == 2 && string(s["CURRENT"]) == mans[0] && len(s[mans[1]]) > 0 {
+			img = s
+		}
+	}
+	return img
+}
+
+func longKey(c *corr.Ctx, i int) []byte {
+	return []byte(fmt.Sprintf("key-%02d-%s", i, string(make([]byte, 8+c.Rng.Intn(12)))))
+}
+
+// resumeCase: a history whose last LogEdits rewrites the manifest; the image with the orphan
+// manifest is reopened with the real Verify + Open, more edits are logged (first a batch of
+// deletes, so that the next snapshot is smaller than the orphan; then a few small edits),
+// Current() is taken, the manager closed and the directory reopened once more.
+func resumeCase(c *corr.Ctx, root string, d mfDesc) (corr.Case, bool, error) {
+	dir, err := os.MkdirTemp(root, "r")
+	if err != nil {
+		return corr.Case{}, false, err
+	}
+	defer os.RemoveAll(dir)
+	on := false
+	var snaps []dirSnap
+	fs := recFS{dir: dir, on: &on, snaps: &snaps}
+	m, err := manifest.Open(dir, fs)
+	if err != nil {
+		return corr.Case{}, false, err
+	}
+	m.SetRewriteThreshold(d.Thr)
+	var img dirSnap
+	cut := -1
+	for k, b := range d.Batches {
+		snaps = snaps[:0]
+		on = true
+		err := m.LogEdits(toEdits(b)...)
+		on = false
+		if err != nil {
+			return corr.Case{}, false, err
+		}
+		if s := orphanImage(snaps); s != nil {
+			img, cut = s, k
+		}
+	}
+	m.Close()
+	if img == nil {
+		return corr.Case{}, false, nil
+	}
+	d.Batches = d.Batches[:cut+1]
+	// the image: restart on it
+	rd, err := os.MkdirTemp(root, "ri")
+	if err != nil {
+		return corr.Case{}, false, err
+	}
+	defer os.RemoveAll(rd)
+	for n, b := range img {
+		if err := os.WriteFile(filepath.Join(rd, n), b, 0o644); err != nil {
+			return corr.Case{}, false, err
+		}
+	}
+	if err := manifest.Verify(rd, nil); err != nil {
+		return corr.Case{}, false, fmt.Errorf("verify of orphan image: %w", err)
+	}
+	m2, err := manifest.Open(rd, nil)
+	if err != nil {
+		return corr.Case{}, false, fmt.Errorf("open of orphan image: %w", err)
+	}
+	m2.SetRewriteThreshold(d.Thr)
+	for _, b := range d.Batches2 {
+		if err := m2.LogEdits(toEdits(b)...); err != nil {
+			return corr.Case{}, false, err
+		}
+	}
+	mem := canon(m2.Current())
+	if err := m2.Close(); err != nil {
+		return corr.Case{}, false, err
+	}
+	disk, errc := reopen(rd)
+	ents, _ := os.ReadDir(rd)
+	c.CountN("resume_manifest_files_left", len(ents)-1)
+	term := fmt.Sprintf("Cr %d %s %s %s %s %d", d.Thr, batchesTerm(d.Batches), batchesTerm(d.Batches2), flatsTerm(mem), flatsTerm(disk), errc)
+	return corr.Case{Coq: term, Nontrivial: true, Desc: d}, true, nil
+}
+
+// genResume: adds of files with long keys plus churn (log pointer, one raft group) until the
+// threshold forces a rewrite whose snapshot is well below the threshold; then deletes.
+func genResume(c *corr.Ctx) mfDesc {
+	thr := int64(corr.Pick(c.Rng, []int{500, 700, 900}))
+	nf := 4 + c.Rng.Intn(4)
+	var b1 [][]flat
+	for i := 0; i < nf; i++ {
+		b1 = append(b1, []flat{{N: []uint64{0, uint64(i % 3), uint64(10 + i), 100, 1, 0, 0}, B: [][]byte{longKey(c, i), longKey(c, i+50)}}})
+	}
+	for i := 0; i < 40; i++ { // churn: overwritten state, grows the log only
+		if c.Rng.Intn(2) == 0 {
+			b1 = append(b1, []flat{{N: []uint64{2, uint64(i), big(c)}}})
+		} else {
+			nn := []uint64{6, 1, 1, small(c)}
+			for j := 0; j < 10; j++ {
+				nn = append(nn, big(c))
+			}
+			b1 = append(b1, []flat{{N: nn}})
+		}
+	}
+	var dels []flat
+	for i := 0; i < nf-1; i++ {
+		dels = append(dels, flat{N: []uint64{1, uint64(i % 3), uint64(10 + i), 0, 0, 0, 0}, B: [][]byte{{}, {}}})
+	}
+	b2 := [][]flat{dels}
+	for i, n := 0, c.Rng.Intn(4); i < n; i++ {
+		b2 = append(b2, []flat{{N: []uint64{2, uint64(100 + i), uint64(i)}}})
+	}
+	if c.Rng.Intn(3) == 0 {
+		b2 = append(b2, []flat{{N: []uint64{0, 5, 77, 1, 1, 1, 0}, B: [][]byte{{'x'}, {'y'}}}})
+	}
+	return mfDesc{Kind: "resume", Thr: thr, Batches: b1, Batches2: b2}
+}
+
 func runManifest(c *corr.Ctx) error {
 	c.Meta("run_module", "RunManifest")
-	c.Meta("rule", "real manifest.Manager. reload cases: random edit sequences (3..40 edits, LogEdits batches of 1-3) over all 8 edit types with colliding ids (file add/delete incl. deletes of missing files and out-of-order ids, WAL checkpoint, value-log head/delete/update incl. invalid updates with an offset, raft pointers, region update/delete, nil sub-structs), boundary field values (0, 2^32-1, 2^63-1, 2^64-1), empty keys; rewrite thresholds {disabled, 64, 300 bytes}; Current() before Close vs the model and vs Current() after Verify + Open. crash cases: the same run on a recording vfs.FS that snapshots the directory after every OpenFileHandle / Write / WriteFile / Rename / Remove / Truncate during LogEdits and at torn prefixes of every write; every snapshot is reopened with the real Verify + Open; each recovered state must be one of the model's crash states for that LogEdits call and the state after a prefix of the edits containing all acknowledged ones")
+	c.Meta("rule", "real manifest.Manager. reload cases: random edit sequences (3..40 edits, LogEdits batches of 1-3) over all 8 edit types with colliding ids (file add/delete incl. deletes of missing files and out-of-order ids, WAL checkpoint, value-log head/delete/update incl. invalid updates with an offset, raft pointers, region update/delete, nil sub-structs), boundary field values (0, 2^32-1, 2^63-1, 2^64-1), empty keys; rewrite thresholds {disabled, 64, 300 bytes}; Current() before Close vs the model and vs Current() after Verify + Open. crash cases: the same run on a recording vfs.FS that snapshots the directory after every OpenFileHandle / Write / WriteFile / Rename / Remove / Truncate during LogEdits and at torn prefixes of every write; every snapshot is reopened with the real Verify + Open; each recovered state must be one of the model's crash states for that LogEdits call and the state after a prefix of the edits containing all acknowledged ones. resume cases: a history whose last LogEdits rewrites the manifest; the image with the new manifest written but CURRENT not yet renamed (orphan manifest file) is reopened with the real Verify + Open, a batch of deletes (smaller snapshot, next rewrite) and 0-3 small edits are logged, Current() compared with the model (open_mgr + log_all) and with Current() after another Verify + Open")
 	root, err := os.MkdirTemp(os.Getenv("VERIF_TMP"), "mf")
 	if err != nil {
 		return err
@@ -477,7 +608,15 @@ func runManifest(c *corr.Ctx) error {
 	run := func(d mfDesc) error {
 		var cs corr.Case
 		var err error
-		if d.Kind == "crash" {
+		if d.Kind == "resume" {
+			var ok bool
+			cs, ok, err = resumeCase(c, root, d)
+			if err == nil && !ok {
+				c.Count("resume_no_orphan_image")
+				return nil
+			}
+			c.Count("resume_cases")
+		} else if d.Kind == "crash" {
 			cs, err = crashCase(c, root, d)
 		} else {
 			cs, err = reloadCase(c, root, d)
@@ -517,6 +656,11 @@ func runManifest(c *corr.Ctx) error {
 			if err := run(d); err != nil {
 				return err
 			}
+		}
+	}
+	for i, n := 0, c.Scale(12, 300); i < n; i++ {
+		if err := run(genResume(c)); err != nil {
+			return err
 		}
 	}
 	c.Meta("exhaustive", false)
